@@ -59,7 +59,7 @@ META = {
         "dict(a, **b), setdefault, M[k] = v with/without `k not in M` / `M.get(k) is None` - a guard on the *truthiness* of the block's value is not an absence "
         "guard); a function that hands the defaults to the validated dict without combining them with the block counts as the merge site too; behind the merge no store puts a possibly-default value under another key without an "
         "absence test; a return of the option parser that can be reached with defaults present but without their merge is a violation (a warning about the "
-        "block does not report the loss; only the docutils TestDirective path is tolerated) - this includes the validate_options=False path, whose raw YAML "
+        "block does not report the loss; the docutils TestDirective return, too, must come behind the merge) - this includes the validate_options=False path, whose raw YAML "
         "mapping must be merged under the same priority rule; in parse_directive_text every path either calls the option parser with the defaults or appends "
         "a warning under a test that they are present (directives without an option_spec); the caller's defaults mapping is only read - no mutator call, "
         "item store or deletion on the parameter or on a name that was made a plain copy of the reference. "
@@ -67,7 +67,9 @@ META = {
         "required, optional}, are exactly len < required / len > required+optional and not final_argument_whitespace / maxsplit = "
         "required+optional-1 under final_argument_whitespace; every path of parse_directive_text either calls parse_directive_arguments or crosses "
         "an edge establishing 'no arguments declared' (truth table over the test's leaves). "
-        "R4: the options parser is only called under a test that implies a non-empty option_spec; the two option-style branches are mutually "
+        "R4: the options parser is only called under a test that implies a non-empty option_spec; the opening '---' delimiter is a whole line (dashes, then only blanks up "
+        "to the line end - a prefix test or a pattern that lets other text follow is reported); neither style rewrites the lines of the block text (textwrap.dedent empties "
+        "whitespace-only lines: known finding); the two option-style branches are mutually "
         "exclusive, each assigns the block text and re-assigns the remaining content on every path, and no flag set differently by them is tested "
         "behind their join, both terminate the lines of the block text alike (separator join vs line-terminated join), and recognising the ':' style skips "
         "spaces and tabs only (no bare lstrip()/strip(), no \\s class); when the style test refuses a leading ':::' (nested colon fence), every statement in a "
@@ -82,9 +84,9 @@ META = {
         "traced through the parser's result object, inlined helpers, `a or b` / conditional expressions and a module-level dict the result is "
         "memoised in - the lookup key must then mention every parameter the counted string depends on; a line-terminated join is lossless); dropping the leading blank body line "
         "and `offset += 1` are control-equivalent, happen once and only under a blank test on body[0]; the first line is merged in front of the body "
-        "only under a test that excludes whitespace-only text; no other statement removes, adds, reorders or rewrites body lines (pop/remove/clear/del, "
+        "only under a test that excludes whitespace-only text, and the offset goes back by one on the same paths (a reset to 0 is the known finding); no other statement removes, adds, reorders or rewrites body lines (pop/remove/clear/del, "
         "end slices, filtering comprehensions, append/extend, item stores). "
-        "R6: for every regex that cuts the content (parsed with re._parser) the number of newlines a match can contain is fixed, pattern + "
+        "R6: for every regex whose match object is kept and used to cut the content (parsed with re._parser; regexes that are only tested are exempt) the number of newlines a match can contain is fixed, pattern + "
         "slice offset skip exactly one line terminator, and the pattern matches a whole line (anchored at the line start and, after the marker and blanks, at the line end)."
     ),
     "not_decided": (
@@ -1629,7 +1631,7 @@ def _bypass_verdict(vm, t: FunctionInfo, ret: ast.Return) -> tuple[str, str]:
     raw_params = {p_ for p_, e_ in call_bind.items() if "validate_options" in names_in(e_)}
     raw = any(pol and isinstance(t_, ast.Name) and t_.id in raw_params for t_, pol in gs)
     if any(pol and isinstance(t_, ast.Call) and dotted(t_.func) == "issubclass" and len(t_.args) == 2 and t.module.resolve(dotted(t_.args[1]) or "").endswith(".TestDirective") for t_, pol in gs):
-        return ("listed", "docutils' TestDirective accepts anything (testing only)")
+        return ("bad", "docutils' TestDirective accepts every option unvalidated, but the externally supplied ones must still be merged under the block's options before it returns")
     if not isinstance(ret.value, ast.Call):
         return ("listed", "return shape not understood")
     # a warning about something else (a malformed block, bad YAML) does not report the loss of the defaults:
@@ -2623,6 +2625,51 @@ def r4_one_validation_path(corpus: Corpus, rep: Report, tier: str):
             )
     else:
         rep.listed("C08.R4", k, m.site(styles[":"]), f"join kinds per style not comparable: { {s_: sorted(v_) for s_, v_ in block_kinds.items()} }")
+    # ---- the opening '---' delimiter is a whole line, like the closing one: `--- a/file` (a diff) or `---abc` is body text
+    dash = styles["---"]
+    kd = f"{f.fq}|the opening '---' delimiter is a whole line"
+    verdict_d = None
+    dash_test = dash.test
+    if isinstance(dash_test, ast.Name) and single_value(f, dash_test.id) is not None:
+        dash_test = single_value(f, dash_test.id)
+    for c_ in ast.walk(dash_test):
+        rc_ = _regex_call(c_, f)
+        if rc_ is not None and rc_[2] in ("match", "fullmatch") and _regex_first_char_style(rc_[0]) == "---":
+            w_ = _whole_line_regex(rc_[0], 0, anchored_start=True)
+            verdict_d = ("ok", rc_[0]) if w_ is True else (("bad", f"the pattern {rc_[0]!r} also matches a longer first line") if w_ is False else ("error", rc_[0]))
+        elif isinstance(c_, ast.Call) and isinstance(c_.func, ast.Attribute) and c_.func.attr == "startswith" and c_.args and isinstance(c_.args[0], ast.Constant) and c_.args[0].value == "---" and verdict_d is None:
+            verdict_d = ("bad", "`startswith('---')` accepts every first line that merely begins with three dashes")
+    if verdict_d is None:
+        rep.error("C08.R4", f"{m.site(dash)}: the test of the '---' style is not understood")
+    elif verdict_d[0] == "ok":
+        rep.ok("C08.R4", kd, m.site(dash), verdict_d[1])
+    elif verdict_d[0] == "bad":
+        rep.violation(
+            "C08.R4",
+            kd,
+            m.site(dash),
+            verdict_d[1] + ": content whose first line is `--- a/file` (a diff in a code-block) or `---|---` is taken for an option block, the line is discarded "
+            "and the rest is parsed as options (`---abc` silently loses `abc`); only dashes followed by blanks up to the line end open a block",
+        )
+    else:
+        rep.error("C08.R4", f"{m.site(dash)}: cannot decide whether {verdict_d[1]!r} matches whole lines only")
+    # ---- neither style rewrites the lines of the block beyond removing indentation common to all of them:
+    # textwrap.dedent also empties every whitespace-only line, which changes `|` block values of the '---' style only
+    for sty, iff in sorted(styles.items()):
+        for st in cfg.nodes:
+            if isinstance(st, (ast.Assign, ast.AnnAssign)) and cfg.dominates(("T", iff), st) and getattr(st, "value", None) is not None:
+                tg = [x for t_ in (st.targets if isinstance(st, ast.Assign) else [st.target]) for x in target_names(t_)]
+                if not (set(tg) & VS):
+                    continue
+                for c_ in ast.walk(st.value):
+                    if isinstance(c_, ast.Call) and m.resolve(dotted(c_.func) or "") == "textwrap.dedent":
+                        rep.violation(
+                            "C08.R4",
+                            f"{f.fq}|the {sty!r} style hands the block text to the tokenizer without rewriting its lines|{short(st, 50)}",
+                            m.site(st),
+                            f"`{short(st, 50)}`: textwrap.dedent empties every whitespace-only line, so a `|` block value of the {sty!r} style loses the spaces of a whitespace-only line that is "
+                            "indented deeper than the block ('\\n\\n' instead of '\\n    \\n'), unlike the same lines in the other style or in YAML",
+                        )
     # ---- recognising the ':' style skips indentation only: spaces and tabs, never line feeds or other Unicode white space
     def wide_strips(root: ast.AST):
         for c_ in ast.walk(root):
@@ -3034,7 +3081,7 @@ def r4_one_validation_path(corpus: Corpus, rep: Report, tier: str):
             rep.violation("C08.R4", k, site, f"`{short(ret, 60)}` hands back option values from {src_} that never passed the option_spec lookup/conversion loop: unknown or invalid options are kept, unconverted and without a warning")
         else:
             rep.ok("C08.R4", k, site, "no option value can reach this dict (only empty-dict definitions reach the return)")
-    rep.expect_min("C08.R4", 28, "2x2 style-branch obligations, >=8 validation steps, 8 path classes, store roles, 4 returns")
+    rep.expect_min("C08.R4", 29, "2x2 style-branch obligations, >=8 validation steps, 8 path classes, store roles, 4 returns")
 
 
 # ---------------------------------------------------------------------------
@@ -3509,7 +3556,36 @@ def r5_body_offset(corpus: Corpus, rep: Report, tier: str):
             continue
         site = m.site(st)
         if hc[0] == "insert":
-            rep.listed("C08.R5", stmt_key(entry, st, 80), site, "first line merged into the body (argument-less directive): offset convention not judged")
+            # one line put in front of the body moves every index by one: the offset must go back by one on the same paths
+            # (relative to whatever it was: k option lines -> k - 1, no options -> -1), not be reset
+            kin = f"{entry.fq}|a line inserted at the head of the body moves the offset back by one"
+            decs, resets = [], []
+            for w_, v_ in simple_defs(entry, OFF):
+                if not control_equivalent(cfg, st, w_):
+                    continue
+                if isinstance(w_, ast.AugAssign) and isinstance(w_.op, ast.Sub) and isinstance(w_.value, ast.Constant) and w_.value.value == 1:
+                    decs.append(w_)
+                elif isinstance(w_, ast.AugAssign) and isinstance(w_.op, ast.Add) and isinstance(w_.value, ast.UnaryOp) and isinstance(w_.value.op, ast.USub) and isinstance(w_.value.operand, ast.Constant) and w_.value.operand.value == 1:
+                    decs.append(w_)
+                elif isinstance(v_, ast.BinOp) and isinstance(v_.op, ast.Sub) and isinstance(v_.left, ast.Name) and v_.left.id == OFF and isinstance(v_.right, ast.Constant) and v_.right.value == 1:
+                    decs.append(w_)
+                else:
+                    resets.append(w_)
+            if len(decs) == 1 and not resets:
+                rep.ok("C08.R5", kin, site)
+            elif resets and not decs:
+                rep.violation(
+                    "C08.R5",
+                    kin,
+                    site,
+                    f"`{short(st, 40)}` puts the text of the directive line in front of the body, but `{short(resets[0], 40)}` resets the offset instead of moving it back by one: "
+                    "body line i is then reported at offset + i although it is content line i - 1 (offset 0 instead of -1; with k option lines 0 instead of k - 1), so nested nodes and warnings "
+                    "of the following body lines carry a wrong line",
+                )
+            elif not decs and not resets:
+                rep.violation("C08.R5", kin, site, f"`{short(st, 40)}` puts a line in front of the body without any change of the offset on the same paths: every following body line is reported one line too far down")
+            else:
+                rep.error("C08.R5", f"{site}: offset writes paired with the head insert not understood")
             x = st.value.args[1]
             if isinstance(x, ast.Name) and x.id in entry.params:
                 _judge_merge_guard(rep, entry, cfg, st, x.id, BODY)
@@ -3703,9 +3779,10 @@ def _newline_span(pattern: str, flags: int) -> tuple[int, int]:
     return seq(tree.data)
 
 
-def _whole_line_regex(pattern: str, flags: int):
-    """True: starts with ^ (line start) and ends at a line end ($ under MULTILINE, or a literal newline), with nothing but
-    blank classes between the last non-blank item and that end; False: provably not; None: not decided."""
+def _whole_line_regex(pattern: str, flags: int, anchored_start: bool = False):
+    """True: starts at a line start (^, or ``anchored_start`` for re.match on the text) and ends at a line end ($ under MULTILINE /
+    at the end of the text, a literal newline, or an alternative of these), with nothing but blank classes between the dash
+    marker and that end; False: provably not; None: not decided."""
     import re._constants as C
     import re._parser as P
 
@@ -3717,12 +3794,27 @@ def _whole_line_regex(pattern: str, flags: int):
     multiline = bool(tree.state.flags & re_flag("MULTILINE"))
     if not items:
         return None
-    if not (items[0][0] is C.AT and items[0][1] in (C.AT_BEGINNING, C.AT_BEGINNING_STRING)):
+    if items[0][0] is C.AT and items[0][1] in (C.AT_BEGINNING, C.AT_BEGINNING_STRING):
+        items = items[1:]
+    elif not anchored_start:
         return False
-    last_op, last_av = items[-1]
-    ends = (last_op is C.LITERAL and last_av == 10) or (last_op is C.AT and ((last_av is C.AT_END and multiline) or last_av is C.AT_END_STRING))
-    if not ends:
+    if not items:
+        return None
+
+    def line_end(op, av) -> bool:
+        if op is C.LITERAL:
+            return av == 10
+        if op is C.AT:
+            return (av is C.AT_END and (multiline or anchored_start)) or av is C.AT_END_STRING
+        if op is C.BRANCH:
+            return all(len(alt) == 1 and line_end(*alt[0]) for alt in av[1])
+        if op is C.SUBPATTERN:
+            return len(av[-1]) == 1 and line_end(*av[-1][0])
         return False
+
+    if not line_end(*items[-1]):
+        return False
+    items = [None] + list(items)  # keep the index arithmetic of the walk below
 
     def blank(op, av) -> bool:
         if op is C.LITERAL:
@@ -3733,11 +3825,20 @@ def _whole_line_regex(pattern: str, flags: int):
             return all(blank(o, a) for o, a in av[2])
         return False
 
-    # walk back from the end over blank items; what precedes must exist (the marker)
+    def dashes(op, av) -> bool:
+        if op is C.LITERAL:
+            return chr(av) == "-"
+        if op in (C.MAX_REPEAT, C.MIN_REPEAT):
+            return all(dashes(o, a) for o, a in av[2])
+        return False
+
+    # walk back from the end over blank items; what precedes must be the dash marker, and nothing else may stand in between
     i = len(items) - 2
     while i > 0 and blank(*items[i]):
         i -= 1
-    return True if i >= 1 else None
+    if i < 1:
+        return None
+    return all(dashes(*items[j]) for j in range(1, i + 1))
 
 
 def re_flag(name: str) -> int:
@@ -3778,6 +3879,12 @@ def r6_delimiter_regex(corpus: Corpus, rep: Report, tier: str):
                 flag_e = kw.value
         lo, hi = _newline_span(pat.value, _re_flags(flag_e))
         k = f"{f.fq}|delimiter regex consumes a fixed number of line terminators"
+        st0 = _stmt(call)
+        bound0 = isinstance(st0, ast.Assign) and len(st0.targets) == 1 and isinstance(st0.targets[0], ast.Name) and st0.value is call
+        if not bound0 and fname in ("match", "fullmatch", "search") and isinstance(st0, (ast.If, ast.While)):
+            # only tested, never used to cut: how many line ends the match spans is irrelevant
+            rep.ok("C08.R6", f"{f.fq}|regex used as a test only|{pat.value}", site, "the match object is not kept: nothing is cut at its position")
+            continue
         if lo != hi and hi < MANY:
             rep.error("C08.R6", f"{site}: the pattern {pat.value!r} may or may not consume one newline; whether it does depends on the input")
             continue
@@ -4017,7 +4124,16 @@ def mutants(corpus: Corpus):
     yj = find_node(fo, lambda n: isinstance(n, ast.Assign) and unparse(n.targets[0]) == "options_block" and is_line_join(n.value) and "yaml_lines" in names_in(n.value))
     add("c08-colon-block-unterminated", "C08.R4", splice(src, yj.value, '"\\n".join(yaml_lines)') if yj is not None else None, "terminate the lines of the block text alike", note="reverts 7a2b3de")
     # eb03501 reverted: white space of every kind is skipped when recognising the ':' style
-    cm = find_node(fo, lambda n: isinstance(n, ast.If) and isinstance(n.test, ast.Call) and unparse(n.test.func) == "re.match" and len(n.test.args) == 2)
+    def style_of_test(t_: ast.AST) -> str | None:
+        for c_ in ast.walk(t_):
+            rc_ = _regex_call(c_, fo)
+            if rc_ is not None and _regex_first_char_style(rc_[0]):
+                return _regex_first_char_style(rc_[0])
+            if isinstance(c_, ast.Call) and isinstance(c_.func, ast.Attribute) and c_.func.attr == "startswith" and c_.args and isinstance(c_.args[0], ast.Constant) and c_.args[0].value in ("---", ":"):
+                return c_.args[0].value
+        return None
+
+    cm = find_node(fo, lambda n: isinstance(n, ast.If) and isinstance(n.test, ast.Call) and unparse(n.test.func) == "re.match" and len(n.test.args) == 2 and style_of_test(n.test) == ":")
     if cm is not None:
         subj = unparse(cm.test.args[1])
         add("c08-colon-style-detected-with-lstrip", "C08.R4", splice(src, cm.test, f'{subj}.lstrip().startswith(":") and not {subj}.lstrip().startswith(":::")'), "skips only spaces and tabs", note="reverts eb03501 (whole content)")
@@ -4120,6 +4236,26 @@ def mutants(corpus: Corpus):
         add("c08-trailing-blank-lines-popped", "C08.R5", splice(src, strip_if, seg_if + f"\n{ind_if}while body_lines and not body_lines[-1].strip():\n{ind_if}    body_lines.pop()"), "only changed by the leading-blank strip")
         add("c08-trailing-blank-line-sliced", "C08.R5", splice(src, strip_if, seg_if + f"\n{ind_if}if body_lines and not body_lines[-1].strip():\n{ind_if}    body_lines = body_lines[:-1]"), "only changed by the leading-blank strip")
         add("c08-blank-lines-filtered", "C08.R5", splice(src, strip_if, seg_if + f"\n{ind_if}body_lines = [ln for ln in body_lines if ln.strip()]"), "only changed by the leading-blank strip")
+    # ---- dc138d8: the opening '---' delimiter is a whole line - revert and partial weakenings
+    dm = find_node(fo, lambda n: isinstance(n, ast.If) and style_of_test(n.test) == "---" and isinstance(n.test, ast.Call) and n.test.args and isinstance(n.test.args[0], ast.Constant))
+    if dm is not None:
+        subj = unparse(dm.test.args[1])
+        add("c08-opening-delimiter-by-prefix", "C08.R4", splice(src, dm.test, f'{subj}.startswith("---")'), "opening '---' delimiter is a whole line", note="reverts dc138d8")
+        add("c08-opening-delimiter-without-line-end", "C08.R4", splice(src, dm.test.args[0], 'r"-{3,}[ \\t\\r]*"'), "opening '---' delimiter is a whole line", note="weakens dc138d8: the line-end alternative dropped")
+        add("c08-opening-delimiter-any-rest-of-line", "C08.R4", splice(src, dm.test.args[0], 'r"-{3,}.*(?:\\n|$)"'), "opening '---' delimiter is a whole line", note="weakens dc138d8: anything may follow the dashes")
+    else:
+        out.append(("c08-opening-delimiter-by-prefix", "regex test of the '---' style not found"))
+    # ---- 1deb621: the TestDirective return comes behind the merge of the defaults - revert and partial weakening
+    tdi = find_node(fo, lambda n: isinstance(n, ast.If) and isinstance(n.test, ast.Call) and unparse(n.test.func) == "issubclass" and "TestDirective" in unparse(n.test))
+    mgi = parent(mg_opts) if (mg_opts := find_node(fo, lambda n: isinstance(n, ast.Assign) and isinstance(n.value, ast.Dict) and n.value.keys and all(k_ is None for k_ in n.value.keys) and unparse(n.targets[0]) == "options")) is not None else None
+    if tdi is not None and isinstance(mgi, ast.If) and mgi.lineno < tdi.lineno:
+        seg_m, seg_t = ast.get_source_segment(src, mgi), ast.get_source_segment(src, tdi)
+        swapped = splice(src, tdi, seg_m)
+        swapped = splice(swapped, mgi, seg_t)  # mgi precedes tdi: its offsets are unchanged by the later splice
+        add("c08-testdirective-returns-before-merge", "C08.R2", swapped, "applied or their loss is reported", note="reverts 1deb621")
+        add("c08-defaults-merged-only-with-block-options", "C08.R2", splice(src, mgi.test, f"{ast.get_source_segment(src, mgi.test)} and options"), "applied or their loss is reported", note="weakens the merge: only when the block has options")
+    else:
+        out.append(("c08-testdirective-returns-before-merge", "TestDirective return / merge not found in the expected order"))
     # ---- class: the caller's defaults mapping is changed in place (R2)
     if mg is not None:
         ind = indent_of(fo, mg)
@@ -4155,7 +4291,7 @@ def mutants(corpus: Corpus):
     else:
         out.append(("c08-option-spec-is-not-none", "truthiness test on option_spec not found"))
     # ---- class: the option-style tests are no longer exclusive (R4)
-    sty2 = find_node(fo, lambda n: isinstance(n, ast.If) and isinstance(parent(n), ast.If) and parent(n).orelse == [n] and any(isinstance(c, ast.Constant) and c.value == "---" for c in ast.walk(parent(n).test)))
+    sty2 = find_node(fo, lambda n: isinstance(n, ast.If) and isinstance(parent(n), ast.If) and parent(n).orelse == [n] and style_of_test(parent(n).test) == "---" and style_of_test(n.test) == ":")
     if sty2 is not None and segment_at(src, sty2, 4) == "elif":
         add("c08-style-tests-not-exclusive", "C08.R4", splice_at(src, sty2, 4, "if"), "cannot run after")
         test_src = ast.get_source_segment(src, sty2.test)
